@@ -104,6 +104,11 @@ def run(prop, tier, seed):
         import vmstate
         stor = vmstate.run(tier, seed)
         vmstate.report(prop, v, stor)
+    lift = None
+    if prop in ("C04", "C12"):
+        import liftmodel
+        lift = liftmodel.run(tier, seed)
+        liftmodel.report(prop, v, lift)
     cov = {
         "states": res["states"],
         "transitions": res["transitions"],
@@ -115,6 +120,9 @@ def run(prop, tier, seed):
         "rule": "contracts enumerated by IdiomsGen + seeded generators; a program contributes when its analysis succeeds",
         "samples": [res["sample"]],
     }
+    if lift:
+        cov["lifting_model"] = liftmodel.coverage(lift)
+        cov["states"] += lift["states"]
     if stor:
         cov["storage_model"] = vmstate.coverage(stor)
         cov["states"] += stor["states"]
@@ -126,6 +134,21 @@ def run(prop, tier, seed):
 
 
 def replay(prop, path, seed):
+    from common import read_json as _rj
+    _doc = _rj(path)
+    if _doc["replay"].get("kind") == "lift-term":
+        # one term of LiftGen: run it alone through the real passes and LiftTrace
+        wd = workdir("lift-replay")
+        cp, tp = os.path.join(wd, "case.ndjson"), os.path.join(wd, "lift.ndjson")
+        with open(cp, "w") as fh:
+            fh.write(json.dumps({"fam": _doc["replay"]["fam"], "term": _doc["replay"]["term"]}) + "\n")
+        harness(["lift-replay", "--cases", cp, "--out", tp])
+        tv = validate_trace("LiftTrace", tp)
+        bad = [i for x in tv.viol for i in x["inv"] if i.startswith("Inv_" + prop)]
+        print(json.dumps({"term": _doc["replay"]["term"], "violations": bad}))
+        if bad:
+            print(f"VIOLATION property={prop} replay={path}")
+        return 1 if bad else 0
     from common import read_json
     rp = read_json(path)["replay"]
     wd = workdir("layout-replay")
